@@ -60,7 +60,6 @@ theorem C11_live_nodup (c : Codec) (G : String → Tuple → Prop) (hc : CodecOk
     (liveOf (run c cfg h) r).Nodup :=
   (run_inv_from hc hwf h { cfg := cfg } (Inv_init G cfg) hm he).1.l.nodup r
 
-instance : DecidablePred TupleWF := fun t => by unfold TupleWF AllP; infer_instance
 instance : ∀ (r : String) (t : Tuple), Decidable ((fun (_ : String) t => TupleWF t) r t) := fun _ t => inferInstanceAs (Decidable (TupleWF t))
 
 def t13 : Tuple := [.i64 1, .i64 3]
